@@ -424,3 +424,29 @@ def c17(run):
                              "SnapToGrid decimal places -320..320 on ordinates up to +-1.8e308 and random bit patterns; Reverse and "
                              "ForceCW/CCW on lattice geometries of every type"}
     family_random(run, "linear", "Trace_Linear", tier_n(run, 16000, 600000))
+
+FAMILY_MODULE["empty"] = "Trace_Empties"
+
+
+def _canary_empty(e):
+    if e["kind"] != "hist" or len(e["steps"]) < 2 or e["steps"][1]["panic"]:
+        return None
+    e["steps"][1]["obs"][2] = "3ff0000000000000" if e["steps"][1]["obs"][2] != "3ff0000000000000" else "4000000000000000"
+    return e
+
+
+CANARY["empty"] = _canary_empty
+
+
+@prop("C20")
+def c20(run):
+    run.assumptions += ["public methods are enumerated by reflection over the method sets of Geometry and the seven concrete types "
+                        "(MustAs*, Scan, UnmarshalJSON excluded: documented panics / covered by C04, C06, C08); set-operation results "
+                        "are compared as point sets with the library's Equals"]
+    run.extra_cov = {"rule": "every all-empty shape to depth 2 (typed empties x 4 coordinate types, Multi* of empty members, collections "
+                             "of 1..3 empties of mixed types, nested) x every public method and 24 free functions in both argument "
+                             "positions against 7 partners; the zero Geometry against the empty GeometryCollection; histories of a "
+                             "non-empty lattice geometry with 1..5 InsertEmpty / RemoveEmpty steps and a 25-entry observation vector "
+                             "(predicates, DE-9IM both ways, measures, envelope, hull, distance, set-operation point sets)"}
+    family_enumerated(run, "empty", "Gen_Empties", "Trace_Empties")
+    family_random(run, "empty", "Trace_Empties", tier_n(run, 1200, 60000))
